@@ -45,9 +45,7 @@ typename MiniJSONWriter<StringWriter>::Node
 MiniJSONWriter<StringWriter>::operator[](std::string_view key) {
   EnsureDictionary();
   InsertElementSeparator();
-  wrt_.write("\"{}\": ",   // Need StringRef until newer {fmt}
-             fmt::StringRef(key.data(), key.size())
-             );
+  wrt_.write("\"{}\": ", EscapeJSON(key));
   ++n_written_;
   return Node{*this};
 }
